@@ -6,7 +6,9 @@
     strategies_order supports_probe_agrees union_is_first_nonNone single_eq_generic
     forest_positional_differs true_pred_irrelevant self_prefix_irrelevant_partial
     simple_eq_generic_partial equivalent_spellings_agree self_prefix_irrelevant_nonpositional
-    dslash_is_descendant simple_eq_generic_kmp
+    dslash_is_descendant simple_eq_generic_kmp simple_eq_generic_fragments_partial
+    self_prefix_default_choice simple_eq_generic_fragments_pattern true_pred_default_choice
+    simple_eq_generic_spellings_partial
 -/
 import Genshi.Model.Path
 import Genshi.Model.PathParse
@@ -17,6 +19,8 @@ import Genshi.Lemmas.PathSpelling
 import Genshi.Lemmas.PathSimple
 import Genshi.Lemmas.PathNonPos
 import Genshi.Lemmas.PathKmpRun
+import Genshi.Lemmas.PathFrags
+import Genshi.Lemmas.PathFragsSelf
 namespace Genshi.Props.C17
 open Genshi Genshi.Path
 
@@ -483,6 +487,282 @@ example : runTest (pathTest [Kmp.fragPath .descendantOrSelf
 -- non-vacuity: `a/b` on <r><a><b/></a></r>
 example : runTest (pathTest [childChain [.localName false ['a'], .localName false ['b']]] false (some .simple)).1 [] []
     (pathTest [childChain [.localName false ['a'], .localName false ['b']]] false (some .simple)).2
+    (Node.elem ⟨[], ['r']⟩ [] [Node.elem ⟨[], ['a']⟩ [] [Node.elem ⟨[], ['b']⟩ [] []]]).flatten
+    = [.none, .none, .bool true, .none, .none, .none] := by decide +kernel
+
+/-! ## SimplePathStrategy on paths with several fragments -/
+
+/-- **simple_eq_generic** for every fragment list (partial only in the spelling of the path).
+    Full statement: for every location path SimplePathStrategy supports, both modes, both
+    caller behaviours and every element tree, SimplePathStrategy reports event by event what
+    GenericStrategy reports.
+    Proved here: let `frags` be ANY list of fragments as `SimplePathStrategy.__init__` builds
+    them (`Frags.FragsOk`: any number of fragments; the first one bound to the context node
+    — `child::t1/…` or `self::t1/child::t2/…` — or empty when the path starts with
+    `descendant::` / `descendant-or-self::`; every further fragment entered through
+    `descendant::` or `descendant-or-self::`; name / `text()` / `comment()` tests; failure
+    tables computed by `calculate_pi`), and `Frags.normPath frags` the location path with
+    these fragments — so `a/descendant::b/c`, `descendant::a/descendant::b`,
+    `a/b/descendant-or-self::c/descendant::d/e`, `self::a/b/descendant::a/a/b`, … with any
+    number of `descendant::` hand-overs.  `__init__` maps that path back to `frags`
+    (`fragments_normPath`), and for the relative mode, both caller behaviours and every
+    element tree the two strategies agree at every event.
+
+    Proof (`Lemmas/PathFrags*.lean`): each entry `(fid, p, ic)` of Simple's stack is read
+    through the reference semantics (`ESem`: the rest of the bound fragment; or `SemIc` — the
+    fragment may start anywhere below, or one of the matched prefixes, `p` being the longest
+    (KMP: `kmpStep_max`), is continued); one matcher step keeps that reading (`visit`,
+    `icLoop_spec`).  When a fragment is completed the code moves to the next one and drops every
+    other candidate of the completed fragment: the DOMINATION lemma `semIc_dom` shows that
+    those candidates select nothing that the rest of the path does not select from the
+    completing node already (the rest starts with a descendant-like step, which is monotone
+    along the tree: `Mono`).  Hence Simple marks exactly `Ref.reach` (`simple_marks`), as
+    GenericStrategy does (`operand_nonpositional`), and equal marks mean equal results at
+    every event (`operands_agree`).
+
+    Missing for the full statement: spellings with an interior `self::` step (`a/self::a/b`,
+    merged or rejected by `__init__`), a final attribute step after a KMP fragment, the
+    pattern mode.  Hypotheses on the tree as in `equivalent_spellings_agree`. -/
+theorem simple_eq_generic_fragments_partial (frags : List Frag) (hok : Frags.FragsOk frags)
+    (ns : NsMap) (vs : Vars) (skip : Bool)
+    (tag : QName) (attrs : AttrList) (kids : List Node)
+    (hcl : (Node.elem tag attrs kids).clean = true)
+    (hn : AllNodes (NodeFor (Frags.normPath frags) ns vs) (.elem tag attrs kids)) :
+    traceCaller (pathTest [Frags.normPath frags] false (some .simple)).1 ns vs skip
+        (pathTest [Frags.normPath frags] false (some .simple)).2 (Node.elem tag attrs kids).flatten
+      = traceCaller (pathTest [Frags.normPath frags] false (some .generic)).1 ns vs skip
+        (pathTest [Frags.normPath frags] false (some .generic)).2 (Node.elem tag attrs kids).flatten := by
+  have hkcl : cleanList kids = true := by simpa [Node.clean] using hcl
+  simp only [traceCaller, pathTest, List.map_cons, List.map_nil, mkMatcher]
+  rw [operands_agree ns vs (toXVars vs) _ _ _ _ _ _ _
+    (Frags.operand_simple_frags ns vs frags hok tag attrs kids hkcl)
+    (operand_nonpositional _ ns vs (Frags.stepsOk_normPath ns vs frags hok) tag attrs kids hcl hn)
+    (fun _ => rfl)]
+
+/-- `a/descendant::b/c`: a bound fragment, then a KMP fragment -/
+def fragsABC : List Frag :=
+  [⟨[.localName false ['a']], [0], none, false⟩,
+   ⟨[.localName false ['b'], .localName false ['c']], [0, 0], none, false⟩]
+
+/-- `descendant::a/a/descendant-or-self::a/b`: two KMP fragments, the first one overlapping
+    itself (failure table `[0, 1]`), the second one entered on the node that completes the first -/
+def fragsAAB : List Frag :=
+  [⟨[], [], none, false⟩,
+   ⟨[.localName false ['a'], .localName false ['a']], [0, 1], none, false⟩,
+   ⟨[.localName false ['a'], .localName false ['b']], [0, 0], none, true⟩]
+
+-- non-vacuity: the hypotheses hold, the paths are what they should be, and there are matches
+example : Frags.FragsOk fragsABC := Frags.fragsOk_of_B _ (by decide)
+example : Frags.FragsOk fragsAAB := Frags.fragsOk_of_B _ (by decide)
+example : Frags.normPath fragsABC
+    = [⟨.child, .localName false ['a'], []⟩, ⟨.descendant, .localName false ['b'], []⟩,
+       ⟨.child, .localName false ['c'], []⟩] := by decide
+example : Frags.normPath fragsAAB
+    = [⟨.descendant, .localName false ['a'], []⟩, ⟨.child, .localName false ['a'], []⟩,
+       ⟨.descendantOrSelf, .localName false ['a'], []⟩, ⟨.child, .localName false ['b'], []⟩] := by decide
+-- `a/descendant::b/c` on <r><a><x><b><c/></b></x></a><b><c/></b></r>: only the first <c/>
+example : runTest (pathTest [Frags.normPath fragsABC] false (some .simple)).1 [] []
+    (pathTest [Frags.normPath fragsABC] false (some .simple)).2
+    (Node.elem ⟨[], ['r']⟩ [] [
+      Node.elem ⟨[], ['a']⟩ [] [Node.elem ⟨[], ['x']⟩ [] [Node.elem ⟨[], ['b']⟩ [] [Node.elem ⟨[], ['c']⟩ [] []]]],
+      Node.elem ⟨[], ['b']⟩ [] [Node.elem ⟨[], ['c']⟩ [] []]]).flatten
+    = [.none, .none, .none, .none, .bool true, .none, .none, .none, .none, .none, .none, .none, .none, .none] := by
+  decide +kernel
+-- `descendant::a/a/descendant-or-self::a/b` on <r><a><a><a><b/></a></a></a></r>: KMP falls back
+-- inside the first fragment, the second fragment starts on the completing node; the <b/> matches
+example : runTest (pathTest [Frags.normPath fragsAAB] false (some .simple)).1 [] []
+    (pathTest [Frags.normPath fragsAAB] false (some .simple)).2
+    (Node.elem ⟨[], ['r']⟩ [] [Node.elem ⟨[], ['a']⟩ [] [Node.elem ⟨[], ['a']⟩ [] [Node.elem ⟨[], ['a']⟩ []
+      [Node.elem ⟨[], ['b']⟩ [] []]]]]).flatten
+    = [.none, .none, .none, .none, .bool true, .none, .none, .none, .none, .none] := by decide +kernel
+
+/-- **`./p` and `p` with the strategies `Path.__init__` picks.**  For the path `p` of any
+    fragment list with two or more steps, `Path.__init__` hands `p` to SimplePathStrategy and
+    `./p` (its first step `self::node()` is not a supported test) to GenericStrategy — and the
+    two matchers report the same at every event: `self_prefix_irrelevant_nonpositional`
+    carried over the strategy choice by `simple_eq_generic_fragments_partial`. -/
+theorem self_prefix_default_choice (frags : List Frag) (hok : Frags.FragsOk frags)
+    (h2 : 2 ≤ (Frags.normPath frags).length)
+    (ns : NsMap) (vs : Vars) (skip : Bool)
+    (tag : QName) (attrs : AttrList) (kids : List Node)
+    (hcl : (Node.elem tag attrs kids).clean = true)
+    (hn : AllNodes (NodeFor (Frags.normPath frags) ns vs) (.elem tag attrs kids)) :
+    (chooseStrategy (dot :: Frags.normPath frags) = some .generic ∧
+     chooseStrategy (Frags.normPath frags) = some .simple) ∧
+    traceCaller (pathTest [dot :: Frags.normPath frags] false).1 ns vs skip
+        (pathTest [dot :: Frags.normPath frags] false).2 (Node.elem tag attrs kids).flatten
+      = traceCaller (pathTest [Frags.normPath frags] false).1 ns vs skip
+        (pathTest [Frags.normPath frags] false).2 (Node.elem tag attrs kids).flatten := by
+  have ho : strategyOrder = [.single, .simple, .generic] := by decide
+  have hc1 : chooseStrategy (dot :: Frags.normPath frags) = some .generic := by
+    have h1 : singleSupports (dot :: Frags.normPath frags) = false := by
+      unfold singleSupports; simp only [List.length_cons]; exact beq_false_of_ne (by omega)
+    have hs : simpleSupports (dot :: Frags.normPath frags) = false := by simp [simpleSupports, dot]
+    simp [chooseStrategy, ho, List.find?, Strategy.supports, h1, hs]
+  have hc2 := Frags.chooses_simple frags hok h2
+  refine ⟨⟨hc1, hc2⟩, ?_⟩
+  have e1 := self_prefix_irrelevant_nonpositional (Frags.normPath frags) ns vs
+    (Frags.stepsOk_normPath ns vs frags hok) tag attrs kids hcl hn skip
+  have e2 := simple_eq_generic_fragments_partial frags hok ns vs skip tag attrs kids hcl hn
+  simp only [pathTest, List.map_cons, List.map_nil, hc1, hc2, Option.getD_some] at e1 e2 ⊢
+  rw [e1, e2]
+
+/-- **simple_eq_generic in pattern mode** (`Path.test(ignore_context=True)`, what match
+    templates use), for the path of every fragment list: SimplePathStrategy matches the first
+    non-empty fragment with KMP from the root on (entry `(fid0, 0, ic = True)`), GenericStrategy
+    rewrites the first step to `descendant-or-self::` (`gSteps_pattern`) — both report `True`
+    exactly at the nodes `descendant-or-self::first/rest` selects from the root
+    (`Frags.simple_marks_pattern`; `generic_nonpos_marks`, the core of C05
+    `pattern_matches_eq_xp`), hence the same at every event, both caller behaviours, every
+    element tree. -/
+theorem simple_eq_generic_fragments_pattern (frags : List Frag) (hok : Frags.FragsOk frags)
+    (ns : NsMap) (vs : Vars) (skip : Bool)
+    (tag : QName) (attrs : AttrList) (kids : List Node)
+    (hcl : (Node.elem tag attrs kids).clean = true)
+    (hn : AllNodes (NodeFor (Frags.normPath frags) ns vs) (.elem tag attrs kids)) :
+    traceCaller (pathTest [Frags.normPath frags] true (some .simple)).1 ns vs skip
+        (pathTest [Frags.normPath frags] true (some .simple)).2 (Node.elem tag attrs kids).flatten
+      = traceCaller (pathTest [Frags.normPath frags] true (some .generic)).1 ns vs skip
+        (pathTest [Frags.normPath frags] true (some .generic)).2 (Node.elem tag attrs kids).flatten := by
+  have hkcl : cleanList kids = true := by simpa [Node.clean] using hcl
+  have hS := Frags.stepsOk_patPath ns vs frags hok
+  have hN : AllNodes (NodeFor (Frags.patPath frags) ns vs) (.elem tag attrs kids) := by
+    refine AllNodes.imp (fun n h => ?_) _ hn
+    obtain ⟨h1, h2, h3, _⟩ := h
+    refine ⟨h1, h2, h3, ?_⟩
+    intro s hs q hq
+    rw [(Frags.mem_patPath frags s hs).2.2] at hq; simp at hq
+  obtain ⟨s1, s2⟩ := Frags.simple_marks_pattern ns (toXVars vs) frags hok tag attrs kids hkcl
+  obtain ⟨g, r, hgr⟩ := Frags.patPath_head frags hok
+  simp only [traceCaller, pathTest, List.map_cons, List.map_nil, mkMatcher]
+  congr 1
+  rw [Frags.runTest_simpleL, runTest_generic, Frags.fragments_normPath frags hok, Frags.gSteps_pattern frags hok]
+  apply vals_eq_of_marks (eventLocs (.elem tag attrs kids) []) _ _ s1
+    (okVals_run _ (gStep_out _ ns vs (fun e => hS.lastResult ns vs e)) _ [] _) (eventLocs_nodup _ [])
+  intro x
+  apply Bool.eq_iff_iff.mpr
+  rw [s2 ⟨x, .elem tag attrs kids⟩, generic_nonpos_marks ns vs _ hS _ hcl hN ⟨x, .elem tag attrs kids⟩]
+  simp [RR, pathAt, convAxis, withAxis, hgr]
+
+-- non-vacuity: the pattern `a/descendant::b/c` on <r><x><a><b><c/></b></a></x></r> matches the <c/>
+example : runTest (pathTest [Frags.normPath fragsABC] true (some .simple)).1 [] []
+    (pathTest [Frags.normPath fragsABC] true (some .simple)).2
+    (Node.elem ⟨[], ['r']⟩ [] [Node.elem ⟨[], ['x']⟩ [] [Node.elem ⟨[], ['a']⟩ [] [Node.elem ⟨[], ['b']⟩ []
+      [Node.elem ⟨[], ['c']⟩ [] []]]]]).flatten
+    = [.none, .none, .none, .none, .bool true, .none, .none, .none, .none, .none] := by decide +kernel
+
+/-! ## An always-true predicate, with the strategies `Path.__init__` picks -/
+
+theorem all2_gSteps (ns : NsMap) (vs : Vars) (p1 p2 : LocPath) (h : All2 (StepEq ns vs) p1 p2) :
+    All2 (StepEq ns vs) (gSteps p1 false) (gSteps p2 false) := by
+  cases h with
+  | nil => simp [gSteps]; exact All2.nil
+  | @cons a b l l' hab hl =>
+    have hax : a.axis = b.axis := hab.1
+    simp only [gSteps, Bool.false_eq_true, if_false, hax]
+    split
+    · exact All2.cons (StepEq.refl ns vs dotSlash) (All2.cons hab hl)
+    · exact All2.cons hab hl
+
+theorem insertPred_preds (p : LocPath) (i k : Nat) (t : Expr) (hi : i < p.length) :
+    ∃ s ∈ insertPred p i k t, s.preds ≠ [] := by
+  refine ⟨(insertPred p i k t)[i]'(by simp [insertPred]; exact hi), List.getElem_mem _, ?_⟩
+  simp [insertPred]
+
+/-- **true_pred_irrelevant with the strategies `Path.__init__` picks.**  Let `p` be the path
+    of a fragment list with two or more steps and `t` an always-true, non-positional
+    predicate.  `Path.__init__` hands `p` to SimplePathStrategy and `p` with `[t]` inserted
+    anywhere (the path now has a predicate) to GenericStrategy — and the two matchers report
+    the same at every event: `true_pred_irrelevant` (`gStep_congr`) carried over the strategy
+    choice by `simple_eq_generic_fragments_partial`. -/
+theorem true_pred_default_choice (frags : List Frag) (hok : Frags.FragsOk frags)
+    (h2 : 2 ≤ (Frags.normPath frags).length)
+    (ns : NsMap) (vs : Vars) (t : Expr) (ht : AlwaysTrue ns vs t) (i k : Nat) (hi : i < (Frags.normPath frags).length)
+    (skip : Bool) (tag : QName) (attrs : AttrList) (kids : List Node)
+    (hcl : (Node.elem tag attrs kids).clean = true)
+    (hn : AllNodes (NodeFor (Frags.normPath frags) ns vs) (.elem tag attrs kids)) :
+    (chooseStrategy (insertPred (Frags.normPath frags) i k t) = some .generic ∧
+     chooseStrategy (Frags.normPath frags) = some .simple) ∧
+    traceCaller (pathTest [insertPred (Frags.normPath frags) i k t] false).1 ns vs skip
+        (pathTest [insertPred (Frags.normPath frags) i k t] false).2 (Node.elem tag attrs kids).flatten
+      = traceCaller (pathTest [Frags.normPath frags] false).1 ns vs skip
+        (pathTest [Frags.normPath frags] false).2 (Node.elem tag attrs kids).flatten := by
+  have ho : strategyOrder = [.single, .simple, .generic] := by decide
+  have hlen : (insertPred (Frags.normPath frags) i k t).length = (Frags.normPath frags).length := by
+    simp [insertPred]
+  have hc1 : chooseStrategy (insertPred (Frags.normPath frags) i k t) = some .generic := by
+    have h1 : singleSupports (insertPred (Frags.normPath frags) i k t) = false := by
+      unfold singleSupports; rw [hlen]; exact beq_false_of_ne (by omega)
+    have hs : simpleSupports (insertPred (Frags.normPath frags) i k t) = false := by
+      obtain ⟨s, hs, hp⟩ := insertPred_preds (Frags.normPath frags) i k t hi
+      cases hq : insertPred (Frags.normPath frags) i k t with
+      | nil => rfl
+      | cons s0 rest =>
+        rw [hq] at hs
+        simp only [simpleSupports, Bool.and_eq_false_iff]
+        right
+        rw [List.all_eq_false]
+        refine ⟨s, hs, ?_⟩
+        have : s.preds.isEmpty = false := by cases hsp : s.preds <;> simp_all
+        simp [this]
+    simp [chooseStrategy, ho, List.find?, Strategy.supports, h1, hs]
+  have hc2 := Frags.chooses_simple frags hok h2
+  refine ⟨⟨hc1, hc2⟩, ?_⟩
+  have e2 := simple_eq_generic_fragments_partial frags hok ns vs skip tag attrs kids hcl hn
+  have hstep : gStep (gSteps (insertPred (Frags.normPath frags) i k t) false) ns vs
+      = gStep (gSteps (Frags.normPath frags) false) ns vs := by
+    funext st e
+    exact gStep_congr ns vs _ _ (all2_gSteps ns vs _ _ (all2_insert ns vs t ht k _ i)) st e
+  simp only [pathTest, List.map_cons, List.map_nil, hc1, hc2, Option.getD_some, mkMatcher, traceCaller] at e2 ⊢
+  rw [e2, runTest_generic, runTest_generic, hstep]
+
+/-! ## Every spelling SimplePathStrategy supports (no attribute step) -/
+
+/-- **simple_eq_generic for every supported spelling without an attribute step.**
+    Full statement: as for `simple_eq_generic_fragments_partial`.
+    Proved here: let `p` be ANY non-empty location path whose steps are on the child,
+    descendant, descendant-or-self or self axis — in any order, `self::` steps anywhere — with
+    name / `text()` / `comment()` tests and no predicates (`Frags.SStep`: what
+    `SimplePathStrategy.supports` accepts, minus a final attribute step).  Then in relative
+    mode, for both caller behaviours and every element tree, SimplePathStrategy (with the
+    fragments `__init__` computes from `p` itself) reports at every event what GenericStrategy
+    reports.  Beyond `simple_eq_generic_fragments_partial` this covers the spellings
+    `__init__` rewrites: `t/self::t` (merged: `self_merge`) and `t/self::u` (`fragments = None`,
+    the matcher never reports anything — and XPath selects nothing: `self_clash`), by an
+    induction along `__init__`'s loop (`Frags.fragLoop_sem`, `Frags.fragments_sem`).
+    Missing for the full statement: a final attribute step after a KMP fragment; the pattern
+    mode for the spellings with interior `self::` steps (for fragment paths it is
+    `simple_eq_generic_fragments_pattern`). -/
+theorem simple_eq_generic_spellings_partial (p : LocPath) (hp : ∀ s ∈ p, Frags.SStep s) (hne : p ≠ [])
+    (ns : NsMap) (vs : Vars) (skip : Bool)
+    (tag : QName) (attrs : AttrList) (kids : List Node)
+    (hcl : (Node.elem tag attrs kids).clean = true)
+    (hn : AllNodes (NodeFor p ns vs) (.elem tag attrs kids)) :
+    traceCaller (pathTest [p] false (some .simple)).1 ns vs skip
+        (pathTest [p] false (some .simple)).2 (Node.elem tag attrs kids).flatten
+      = traceCaller (pathTest [p] false (some .generic)).1 ns vs skip
+        (pathTest [p] false (some .generic)).2 (Node.elem tag attrs kids).flatten := by
+  have hkcl : cleanList kids = true := by simpa [Node.clean] using hcl
+  simp only [traceCaller, pathTest, List.map_cons, List.map_nil, mkMatcher]
+  rw [operands_agree ns vs (toXVars vs) _ _ _ _ _ _ _
+    (Frags.operand_simple_supported ns vs p hp hne tag attrs kids hkcl)
+    (operand_nonpositional _ ns vs (Frags.stepsOk_of_sstep ns vs p hp hne) tag attrs kids hcl hn)
+    (fun _ => rfl)]
+
+/-- `descendant::a/self::a/b` (merged by `__init__`) and `a/self::b/c` (`fragments = None`) -/
+def pathSelfMerge : LocPath :=
+  [⟨.descendant, .localName false ['a'], []⟩, ⟨.self, .localName false ['a'], []⟩, ⟨.child, .localName false ['b'], []⟩]
+def pathSelfClash : LocPath :=
+  [⟨.child, .localName false ['a'], []⟩, ⟨.self, .localName false ['b'], []⟩, ⟨.child, .localName false ['c'], []⟩]
+
+example : ∀ s ∈ pathSelfMerge, Frags.SStep s := by
+  intro s hs; simp [pathSelfMerge] at hs
+  rcases hs with rfl | rfl | rfl <;> exact ⟨rfl, rfl, by simp⟩
+example : fragments pathSelfMerge
+    = some [⟨[], [], none, false⟩, ⟨[.localName false ['a'], .localName false ['b']], [0, 0], none, false⟩] := by decide
+example : fragments pathSelfClash = none := by decide
+example : runTest (pathTest [pathSelfMerge] false (some .simple)).1 [] []
+    (pathTest [pathSelfMerge] false (some .simple)).2
     (Node.elem ⟨[], ['r']⟩ [] [Node.elem ⟨[], ['a']⟩ [] [Node.elem ⟨[], ['b']⟩ [] []]]).flatten
     = [.none, .none, .bool true, .none, .none, .none] := by decide +kernel
 
